@@ -232,11 +232,17 @@ const (
 
 func (s *session) changeStatus(stat int32) {
 	atomic.StoreInt32(&s.status, stat)
+	if verifOn && verifOnStatus != nil {
+		verifOnStatus(s, -1, stat)
+	}
 }
 
 func (s *session) tryChangeStatus(to int32, fromList ...int32) (changed bool) {
 	for _, from := range fromList {
 		if atomic.CompareAndSwapInt32(&s.status, from, to) {
+			if verifOn && verifOnStatus != nil {
+				verifOnStatus(s, from, to)
+			}
 			return true
 		}
 	}
